@@ -3,8 +3,9 @@
 import json, subprocess, sys, os
 
 ROOT = os.path.dirname(os.path.abspath(__file__))
-BASELINE = ("cd /repo && cargo nextest run --workspace --no-fail-fast --tool-config-file pb:/w/lib/nextest.toml "
-            "--profile pb --test-threads 8 --offline")
+# BASELINE.json: nextest with a fallback to cargo test (nextest cannot list the custom-harness tests of this repository)
+BASELINE = ("cd /repo && (cargo nextest run --workspace --no-fail-fast --tool-config-file pb:/w/lib/nextest.toml "
+            "--profile pb --test-threads 8 --offline || cargo test --workspace --no-fail-fast --offline)")
 
 # id -> (engine, category, technique, level text, level note, design ref)
 CHECKS = {
